@@ -215,6 +215,12 @@ func (c *Conn) Read(p []byte) (int, error) {
 		}
 		if c.in.closed {
 			c.EOFPolls++
+			if c.EOFPolls > 1 {
+				// a peer that polls on EOF must not starve the run of steps: the
+				// second and later polls cost simulated time
+				time.Sleep(time.Millisecond)
+				rt.Yield("conn.Read eof-poll " + c.Name)
+			}
 			return 0, io.EOF
 		}
 		// nothing to read yet: wait (in simulated time) so that a polling
